@@ -120,6 +120,11 @@ def run_case(pid, p, rng, res, spec, tier):
         else:
             for g in rng.sample(gates, min(4, len(gates))):
                 variants.append((f'flip:{g}', {}, {g: 'yes'}))
+        # two calls on one Solver: first a statement form alone (solves), then the return; with and without a refusing user
+        first = sorted(k_.split('.')[0] for k_ in tv.stored if k_.split('.')[0].split(':')[0] in INPUT_FORM_NAMES)[:1]
+        if first:
+            variants.append(('two-calls', {'forms': first, 'then_request': list(p.forms())}, None))
+            variants.append(('two-calls-refuse-from-3', {'forms': first, 'then_request': list(p.forms()), 'refuse_from': len([q for q in answers if q.split('.')[0] == first[0]]) + 3}, None))
         variants.append(('need_8962', {}, {'1040.need_8962': 'yes'}))
         variants.append(('oid', {}, {'1040.number_1099-oid': '1'}))
         for name, kw, ov in variants:
@@ -247,6 +252,15 @@ def run_case(pid, p, rng, res, spec, tier):
                 res.count('solved_runs_pulling_forms')
             for f in pulled:
                 res.add('forms_pulled_by_reference', f.split(':')[0])
+        # two calls on one Solver: a statement form first, then the return - the closure is that of both requests
+        first = sorted(k_.split('.')[0] for k_ in tv.stored if k_.split('.')[0].split(':')[0] in INPUT_FORM_NAMES)[:1]
+        if first:
+            o4, tv4, _ = traced(fresh(), forms=first, then_request=list(p.forms()))
+            res.evaluations += 1
+            res.count('closure_checks')
+            res.count('closure_checks_two_calls')
+            for s, m in oracles.c04(o4, tv4):
+                viol(res, pid, year, s, m, p, 'two-calls', spec)
         # numbered copies of one form requested by name, alone and next to the return
         copies = sorted({k_.split('.')[0] for k_ in tv.stored if ':' in k_.split('.')[0] and k_.split('.')[0].split(':')[0] in INPUT_FORM_NAMES})
         if len(copies) >= 2:
